@@ -94,6 +94,11 @@ class Star(Sym):
     __slots__ = ()
 
 
+class ObjSym(Sym):
+    """A value known to be an object other than None (an f-string, a new exception)."""
+    __slots__ = ()
+
+
 class GSym(Sym):
     """A module-level name (module, class, constant, function): attributes are stable."""
     __slots__ = ()
@@ -187,6 +192,7 @@ class Ctx:
         self.unroll = (LOOP_UNROLL, LOOP_UNROLL, WHILE_UNROLL)
         self.nt_fields = {}
         self.guarded = set()
+        self.consts = {}
         seen = {}
         for cd in classes.values():
             if 'NamedTuple' in {ast.unparse(b).split('.')[-1] for b in cd.bases}:
@@ -387,6 +393,8 @@ class Run:
             if name in e['vars']:
                 return e['vars'][name]
             e = e['parent']
+        if name in self.ctx.consts:
+            return self.ctx.consts[name]
         return GSym(name)
 
     def bind(self, env, name, value):
@@ -437,9 +445,13 @@ class Run:
                 if isinstance(v, (list, tuple)):
                     out.extend(v)
                 elif isinstance(v, (set, frozenset, dict)):
-                    out.extend(list(v))
+                    out.extend(self._ordered(v) if not isinstance(v, dict) else list(v))
                 else:
-                    out.append(Star(f'*{show(v)}'))
+                    n = self.eq_known.get(f'len({show(v)})')
+                    if isinstance(n, int) and not isinstance(n, bool) and 0 <= n <= 8:
+                        out.extend(Sym(f'{show(v)}[{i}]') for i in range(n))    # its length is known here
+                    else:
+                        out.append(Star(f'*{show(v)}'))
             else:
                 out.append(self.ev(x, env))
         return out
@@ -472,7 +484,7 @@ class Run:
                     conc = False
                     parts.append('{' + show(v) + conv + '}')
         txt = ''.join(parts)
-        return txt if conc else Sym('f' + repr(txt))
+        return txt if conc else ObjSym('f' + repr(txt))
 
     def ev_Attribute(self, e, env):
         obj = self.ev(e.value, env)
@@ -628,6 +640,8 @@ class Run:
         if o in ('Eq', 'NotEq', 'Is', 'IsNot'):
             if sa == sb and isinstance(a, Sym):
                 return o in ('Eq', 'Is')
+            if (a is None and isinstance(b, ObjSym)) or (b is None and isinstance(a, ObjSym)):
+                return o in ('NotEq', 'IsNot')
             if o in ('Is', 'IsNot') and (a is None or b is None) and not isinstance(a if b is None else b, Sym):
                 return o == 'IsNot'     # a concrete non-None value is not None
             x, y = sorted((sa, sb))
@@ -926,6 +940,8 @@ class Run:
             r = self.method(recv, f.attr, args, kw)
             if r is not NotImplemented:
                 return r
+            if isinstance(recv, GSym):
+                return self.opaque_call(GSym(f'{recv}.{f.attr}'), f.attr, args, kw)
             if isinstance(recv, Sym):
                 ftxt = f'{recv}.{f.attr}'
             else:
@@ -981,7 +997,7 @@ class Run:
         skw = tuple(sorted((k, show(v)) for k, v in kw.items()))
         call_txt = f"{ftext}({', '.join(list(sargs) + [f'{k}={v}' for k, v in skw])})"
         if last[:1].isupper() and last.endswith(('Error', 'Exception', 'Warning', 'InvalidState', 'UnknownEvent')):
-            v = Sym(call_txt)
+            v = ObjSym(call_txt)
             self.exc_cls[str(v)] = last
             return v
         if last in OBSERVATIONS:
@@ -1000,7 +1016,9 @@ class Run:
         # part of the trace; what THIS function does to it later is recorded as an effect)
         for a in list(args) + list(kw.values()):
             self.escape(a)
-        n = self.effect('call', call_txt, name=last)
+        reach = not isinstance(ftext, GSym) or any(
+            isinstance(a, Sym) and str(a) in ('self', 'cls') for a in list(args) + list(kw.values()))
+        n = self.effect('call', call_txt, name=last, bump=reach)
         return Sym(f'r{n}')
 
     def builtin(self, name, args, kw, env):
@@ -1244,6 +1262,9 @@ class Run:
                     return all(has(other, x) for x in recv)
                 if name == 'isdisjoint':
                     return not any(has(other, x) for x in recv)
+            if name in ('union', 'intersection', 'difference', 'issubset', 'isdisjoint', 'symmetric_difference') \
+                    and len(args) == 1 and isinstance(args[0], Sym):
+                return Sym(f'{show(recv)}.{name}({show(args[0])})')
             if name == 'pop' and not args and isinstance(recv, set):
                 if not recv:
                     raise self._raise_builtin('KeyError')
@@ -1466,6 +1487,8 @@ class Run:
                 return
             if isinstance(obj, Sym):
                 value = self.settle(value)
+                if show(value) == f'{obj}[{show(key)}]':
+                    return          # d[k] = d[k]
                 self.effect('setitem', str(obj), show(key), show(value), bump=False)
                 self.escape(value)
                 return
@@ -2056,6 +2079,34 @@ def _signature(fn) -> str:
         ','.join(ast.unparse(d) for d in fn.decorator_list)
 
 
+def _module_consts(tree) -> dict:
+    """NAME = <literal> at module level, assigned exactly once and never declared global."""
+    out, count = {}, {}
+    for st in tree.body:
+        tgts = []
+        if isinstance(st, ast.Assign):
+            tgts = [t for t in st.targets if isinstance(t, ast.Name)]
+            val = st.value
+        elif isinstance(st, ast.AnnAssign) and isinstance(st.target, ast.Name) and st.value is not None:
+            tgts, val = [st.target], st.value
+        for t in tgts:
+            count[t.id] = count.get(t.id, 0) + 1
+            try:
+                v = ast.literal_eval(val)
+            except (ValueError, SyntaxError, TypeError, MemoryError, RecursionError):
+                continue
+            if isinstance(v, (str, int, float, bool)) or v is None or (
+                    isinstance(v, tuple) and all(isinstance(x, (str, int, float, bool)) or x is None for x in v)):
+                out[t.id] = v
+    for x in ast.walk(tree):
+        if isinstance(x, ast.Global):
+            for n in x.names:
+                out.pop(n, None)
+        elif isinstance(x, (ast.AugAssign,)) and isinstance(x.target, ast.Name):
+            out.pop(x.target.id, None)
+    return {k: v for k, v in out.items() if count.get(k) == 1}
+
+
 def _called_names(fn) -> set:
     out = set()
     for x in ast.walk(fn):
@@ -2170,6 +2221,7 @@ def semantic_substitute(modname: str, tree: ast.Module, const_attrs=frozenset())
     only_ref = {q for q in ref if q not in cur}
     cur_classes = {n: c for n, c in _classes(tree).items() if n not in _classes(ref_tree)}
     ref_classes = {n: c for n, c in _classes(ref_tree).items() if n not in _classes(tree)}
+    cur_consts, ref_consts = _module_consts(tree), _module_consts(ref_tree)
     log = []
     proved = []
     for q in changed:
@@ -2180,6 +2232,7 @@ def semantic_substitute(modname: str, tree: ast.Module, const_attrs=frozenset())
         cctx = Ctx(cur, cur_classes, only_cur, const_attrs, alphabet)
         rctx = Ctx(ref, ref_classes, only_ref, const_attrs, alphabet)
         cctx.guarded = rctx.guarded = _guarded_names(fns)
+        cctx.consts, rctx.consts = cur_consts, ref_consts
         if _signature(cur[q]) != _signature(ref[q]):
             ok, info = False, 'signature (parameters, defaults, decorators) differs'
         else:
